@@ -281,8 +281,14 @@ def corruptions(data: Dict[str, Any], types: Dict[Tuple, Any], rpaths: Dict[Tupl
             fp = fp[:-1]
         return (static_types or {}).get(key_path(fp))
 
+    # __typename positions are few and each is its own obligation: they are all visited, outside the per-response budget of the other kinds
+    tn_budget = 3 * limit
+    positions.sort(key=lambda pv: 0 if (pv[0][-1] == "__typename" or (rpaths.get(key_path(pv[0])) or {}).get("aliased_typename")) else 1)
     for path, value in positions:
-        if len(out) >= limit:
+        is_tn = path[-1] == "__typename" or bool((rpaths.get(key_path(path)) or {}).get("aliased_typename"))
+        if len(out) >= (tn_budget if is_tn else limit + sum(1 for o in out if o[0] == "typename-not-possible")):
+            if is_tn:
+                continue
             break
         if path[-1] == "__typename":
             if len(path) > 1 and type_at(types, path[:-1]) is not None:
@@ -329,7 +335,7 @@ def corruptions(data: Dict[str, Any], types: Dict[Tuple, Any], rpaths: Dict[Tupl
         else:
             out.append(("kind-scalar-to-list", path, set_at(data, path, [value])))
             out.append(("kind-scalar-to-object", path, set_at(data, path, {"v": value})))
-    return out[:limit]
+    return out
 
 
 # --------------------------------------------------------------------------- C05 annotation image
@@ -341,7 +347,7 @@ def unwrap_annotated(ann):
     return ann
 
 
-def match_annotation(ann, gtype, conditional: bool, enums_mod, custom_scalars: Dict[str, Any], path="") -> Optional[str]:
+def match_annotation(ann, gtype, conditional: bool, enums_mod, custom_scalars: Dict[str, Any], path="", schema=None) -> Optional[str]:
     """None if `ann` (evaluated annotation) is the image of GraphQL type `gtype`; else a description."""
     from pydantic import BaseModel
 
@@ -363,7 +369,7 @@ def match_annotation(ann, gtype, conditional: bool, enums_mod, custom_scalars: D
     if isinstance(inner_t, GraphQLList):
         if origin not in (list, typing.List):
             return "%s: GraphQL list mapped to %r" % (path, ann)
-        return match_annotation(args[0], inner_t.of_type, False, enums_mod, custom_scalars, path + "[]")
+        return match_annotation(args[0], inner_t.of_type, False, enums_mod, custom_scalars, path + "[]", schema)
     if origin in (list, typing.List):
         return "%s: non-list GraphQL type %s mapped to %r" % (path, inner_t, ann)
     named = inner_t
@@ -392,4 +398,20 @@ def match_annotation(ann, gtype, conditional: bool, enums_mod, custom_scalars: D
             return "%s: composite type %s mapped to %r" % (path, named.name, ann)
     if origin is typing.Union and not is_abstract_type(named):
         return "%s: object type %s mapped to a Union %r" % (path, named.name, ann)
+    if schema is not None and is_abstract_type(named):
+        # the __typename Literals of the member classes together say which runtime types the position admits: no object type outside the
+        # position's possible types may be among them (abstract type names in the Literal are the separately listed finding)
+        possible = {o.name for o in schema.get_possible_types(named)}
+        admitted = set()
+        for m in members:
+            m = unwrap_annotated(m)
+            for fname, fi in m.model_fields.items():
+                if (fi.alias or fname) == "__typename":
+                    lit = unwrap_annotated(fi.annotation)
+                    if typing.get_origin(lit) is typing.Literal:
+                        admitted |= {a for a in typing.get_args(lit) if isinstance(a, str)}
+        foreign = sorted(n for n in admitted - possible if n in schema.type_map and not is_abstract_type(schema.type_map[n]))
+        if foreign:
+            return "typename-literal-foreign-type: %s: classes for a position of type %s admit __typename %r, which %s can never be (possible: %r)" % (
+                path, named.name, foreign, named.name, sorted(possible))
     return None
